@@ -106,6 +106,38 @@ def main(tier, replay, t0):
                                               k["decl"], e["bits"], k["bits"]), rp))
                 if len(samples) < 6 and form != "literal":
                     samples.append({"decl": k["decl"], "type": e["type_name"], "bits": e["bits"]})
+    # constants named like items the generator adds itself: whatever else happens to such a
+    # module (it has two definitions of one name: C01's recorded finding), the WGSL constant has
+    # to be in the output under its own name with its own type and value (item inventory)
+    binp = core.build_drive()
+    clash = [("SOURCE", "", "cs_main"), ("ENTRY_CS_MAIN", "", "cs_main"),
+             ("ENTRY_MAIN", "", "main"),
+             ("PUSH_CONSTANT_STAGES", "var<push_constant> pc: vec4<f32>;\n", "cs_main")]
+    jobs = []
+    for k, (name, extra, entry) in enumerate(clash):
+        for j, (lit, ty) in enumerate((("7u", "u32"), ("-3", "i32"), ("0.25", "f32"))):
+            src = "const %s = %s;\nconst OTHER_%d = 11u;\n%s@compute @workgroup_size(1)\nfn %s() { }\n" % (
+                name, lit, k, extra, entry)
+            jobs.append({"id": "clash%d_%d" % (k, j), "source": src, "opt": {"fmt": bool(j % 2)},
+                         "inv": True, "_name": name, "_ty": ty})
+    p_, res = core.run_drive(binp, [{k_: v for k_, v in j.items() if not k_.startswith("_")}
+                                    for j in jobs], "c15/clash")
+    by = {r["id"]: r for r in res}
+    for j in jobs:
+        r = by.get(j["id"])
+        if not r or r.get("result") != "ok":
+            continue
+        n += 1
+        mine = [k_ for k_ in r.get("inv", {}).get("consts", [])
+                if k_["name"] == j["_name"] and k_["pub"] and k_["ty"].replace(" ", "") == j["_ty"]]
+        if not mine:
+            viol.append(Violation("constant-missing", "named-like-generated-item",
+                                  "the WGSL constant %s (%s) is not exported under its own name "
+                                  "with its own type: the module has %s" % (
+                                      j["_name"], j["_ty"],
+                                      [(k_["name"], k_["ty"]) for k_ in
+                                       r.get("inv", {}).get("consts", [])][:6]),
+                                  {"wgsl": j["source"], "options": j["opt"]}))
     inconclusive = []
     if n < 50:
         inconclusive.append("only %d constants observed" % n)
